@@ -1,7 +1,18 @@
 import Fix8Model.Basic.DigitsLemmas
+import Fix8Model.Basic.DecimalLemmas
 /-!
-C08 – Numeric field text conversions are exact inverses (integer half).
-The floating half (`modp_dtoa` / `fast_atof`) is not covered by a theorem: see DESIGN.md C08.
+C08 – Numeric field text conversions are exact inverses.
+
+Integer half (`itoa<int>` / `fast_atoi<int>`): proved about the model of the C++ `int` code.
+
+Floating half (`modp_dtoa` / `fast_atof`): proved in EXACT arithmetic.  A value is a rational
+`n / d` (`n : Int`, `d : Nat`, `0 < d`) or a scaled decimal `m / 10^p`; binary64 rounding is NOT
+formalised (Lean's `Float` is opaque to the kernel).  The theorems say what the two routines
+compute when no floating operation rounds; they are tied to the real code by the correspondence run
+only on inputs whose binary64 arithmetic is exact, everywhere else the real code is judged by the
+independent oracle of tools/props/c08.py.  Domain: precision 0..9 (the code clamps), and
+`|v| ≤ 2147483647 = thres_max` (above it the code calls `sprintf("%e")`, which is not modelled:
+`dtoa` returns `none`).
 -/
 namespace Fix8Model.Props.C08
 open Fix8Model.Digits
@@ -32,5 +43,148 @@ example : itoa (-30) = [45, 51, 48] ∧ fastAtoi (itoa (-30)) = -30 := by
 example : inInt32 (-2147483648) ∧ fastAtoiTrace (itoa (-2147483648)) ≠ [] := by
   refine ⟨by unfold inInt32; omega, ?_⟩
   rw [itoa_eq]; simp [decimalRepr, natDigits, fastAtoiTrace, scan, atoiSub]
+
+
+/-! ## floating half, exact arithmetic -/
+open Fix8Model.Decimal Fix8Model.Gen
+
+/-- (1a) a decimal `m / 10^p` with at most `p ≤ 9` fraction digits and `|m / 10^p| ≤ 2^31 - 1` is
+printed at precision `p` as its canonical text: optional `-`, whole part without leading zeros, and
+for `p > 0` a point and the fraction digits without trailing zeros but at least one (`5.0`,
+`12.25`, `-0.5`); for `p = 0` the whole part only (`5`). -/
+theorem C08_dtoa_decimal (m : Int) (p : Nat) (hp : p ≤ 9) (hdom : m.natAbs ≤ 2147483647 * 10 ^ p) :
+    dtoa m (10 ^ p) (p : Int) = some (canonText m p) := by
+  have hP := ten_pow_pos p
+  have hx : m.natAbs * 10 ^ p = 10 ^ p * m.natAbs := Nat.mul_comm _ _
+  rw [dtoa_eq_round m (10 ^ p) p hP hp hdom, roundK_exact _ _ _ _ hP hx]
+  rfl
+
+/-- (1b) the canonical text parses back to the decimal it denotes -/
+theorem C08_atof_canon (m : Int) (p : Nat) : (atof (canonText m p)).eqv ⟨m, p⟩ := by
+  obtain ⟨M, z, hz, hM, h⟩ := atof_signedText (decide (m < 0)) m.natAbs p
+  unfold canonText
+  rw [h]
+  unfold Dec.eqv
+  simp only
+  have hpw : (10 : Int) ^ p = 10 ^ (p - z) * 10 ^ z := by rw [← Int.pow_add]; congr 1; omega
+  have hMi : (M : Int) * 10 ^ z = (m.natAbs : Int) := by rw [← hM]; push_cast; rfl
+  by_cases hneg : m < 0
+  · simp only [hneg, decide_true, ↓reduceIte]
+    have : m = -(m.natAbs : Int) := by omega
+    rw [this, ← hMi, hpw]; grind
+  · simp only [hneg, decide_false, Bool.false_eq_true, ↓reduceIte]
+    have : m = (m.natAbs : Int) := by omega
+    rw [this, ← hMi, hpw]; grind
+
+/-- (1) round trip value → text → value for every decimal of the domain -/
+theorem C08_atof_dtoa_decimal (m : Int) (p : Nat) (hp : p ≤ 9) (hdom : m.natAbs ≤ 2147483647 * 10 ^ p) :
+    ∃ t, dtoa m (10 ^ p) (p : Int) = some t ∧ (atof t).eqv ⟨m, p⟩ :=
+  ⟨canonText m p, C08_dtoa_decimal m p hp hdom, C08_atof_canon m p⟩
+
+/-- (2) every exact value `v = n / d` with `|v| ≤ 2^31 - 1` is printed at precision `p ≤ 9` as the canonical text of a decimal `±k / 10^p` (with the
+sign of `v`: a negative value that rounds to zero prints `-0.0`) such that
+* `|k / 10^p - |v|| ≤ ½·10^-p`  (cross-multiplied: `2·k·d ≤ 2·|n|·10^p + d` and `2·|n|·10^p ≤ 2·k·d + d`),
+* at an exact tie (`|v|·10^p = J + ½`) `k` is the even neighbour, except that for `p > 0` a tie whose
+  `p` fraction digits are all zero (`J % 10^p = 0`) goes up (the `frac == 0` clause of the code),
+* the text parses back to exactly `±k / 10^p`, hence to within `½·10^-p` of `v`. -/
+theorem C08_dtoa_nearest (n : Int) (d p : Nat) (hd : 0 < d) (hp : p ≤ 9)
+    (hdom : n.natAbs ≤ 2147483647 * d) :
+    ∃ k : Nat, dtoa n d (p : Int) = some (signedText (decide (n < 0)) k p)
+      ∧ (2 * (k * d) ≤ 2 * (n.natAbs * 10 ^ p) + d ∧ 2 * (n.natAbs * 10 ^ p) ≤ 2 * (k * d) + d)
+      ∧ (2 * (n.natAbs * 10 ^ p % d) = d →
+          k = if (n.natAbs * 10 ^ p / d) % 2 = 1 ∨ (p ≠ 0 ∧ (n.natAbs * 10 ^ p / d) % 10 ^ p = 0)
+              then n.natAbs * 10 ^ p / d + 1 else n.natAbs * 10 ^ p / d)
+      ∧ ∃ M z, z ≤ p ∧ M * 10 ^ z = k ∧
+          atof (signedText (decide (n < 0)) k p) = ⟨if n < 0 then -(M : Int) else (M : Int), p - z⟩ := by
+  refine ⟨roundK n.natAbs d p, dtoa_eq_round n d p hd hp hdom, roundK_nearest _ _ _ hd, ?_, ?_⟩
+  · intro htie
+    simp only [roundK]
+    have n1 : ¬ (2 * (n.natAbs * 10 ^ p % d) > d) := by omega
+    rw [if_neg n1]
+    simp only [htie, true_and]
+  · obtain ⟨M, z, hz, hM, h⟩ := atof_signedText (decide (n < 0)) (roundK n.natAbs d p) p
+    refine ⟨M, z, hz, hM, ?_⟩
+    rw [h]; simp
+
+/-- the precision argument is clamped to 0..9 before anything else -/
+theorem C08_dtoa_prec_clamp (n : Int) (d : Nat) (prec : Int) :
+    dtoa n d prec = dtoa n d (clampPrec prec : Int) ∧ clampPrec prec ≤ 9 := by
+  refine ⟨?_, clampPrec_le prec⟩
+  simp only [dtoa, clampPrec_ofNat _ (clampPrec_le prec)]
+
+/-- (3) re-encoding stability: a canonical text (at precision `p`) of the domain, parsed and printed
+again at precision `p`, is reproduced byte for byte -/
+theorem C08_dtoa_atof_canon (m : Int) (p : Nat) (hp : p ≤ 9) (hdom : m.natAbs ≤ 2147483647 * 10 ^ p) :
+    dtoa (atof (canonText m p)).m (10 ^ (atof (canonText m p)).e) (p : Int) = some (canonText m p) := by
+  obtain ⟨M, z, hz, hM, h⟩ := atof_signedText (decide (m < 0)) m.natAbs p
+  unfold canonText
+  rw [h]
+  simp only
+  have hP := ten_pow_pos (p - z)
+  have hZ := ten_pow_pos z
+  have hpw : 10 ^ p = 10 ^ (p - z) * 10 ^ z := by rw [← Nat.pow_add]; congr 1; omega
+  have hsign : decide ((if decide (m < 0) = true then -(M : Int) else (M : Int)) < 0) = decide (m < 0) := by
+    by_cases hneg : m < 0
+    · have : 0 < M := by
+        apply Nat.pos_of_ne_zero; intro e; rw [e] at hM; simp at hM; omega
+      simp [hneg]; omega
+    · simp [hneg]
+  have habs : (if decide (m < 0) = true then -(M : Int) else (M : Int)).natAbs = M := by
+    split <;> simp
+  have hx : M * 10 ^ p = 10 ^ (p - z) * m.natAbs := by
+    rw [← hM, hpw]; grind
+  have hdom' : M ≤ 2147483647 * 10 ^ (p - z) := by
+    apply Nat.le_of_mul_le_mul_right _ hZ
+    rw [hM, Nat.mul_assoc, ← hpw]; exact hdom
+  rw [dtoa_eq_round _ (10 ^ (p - z)) p hP hp (by rw [habs]; exact hdom'),
+      habs, roundK_exact _ _ _ _ hP hx, hsign]
+
+/-- inside the domain no value stored into the `int whole` exceeds INT_MAX and no value stored into
+the `uint32_t frac` exceeds 10^9: the integer arithmetic of `modp_dtoa` does not overflow -/
+theorem C08_dtoa_int_range (n : Int) (d : Nat) (prec : Int) (hd : 0 < d) (hdom : n.natAbs ≤ 2147483647 * d) :
+    (∀ w ∈ (dtoaInts n d prec).1, w ≤ 2147483647) ∧ (∀ f ∈ (dtoaInts n d prec).2, f ≤ 1000000000) := by
+  have hp := clampPrec_le prec
+  have hP : 0 < 10 ^ clampPrec prec := ten_pow_pos _
+  have hP9 : 10 ^ clampPrec prec ≤ 10 ^ 9 := Nat.pow_le_pow_right (by decide) hp
+  obtain ⟨h1, h2, h3, h4⟩ := roundStage_range n.natAbs d (10 ^ clampPrec prec) (decide (clampPrec prec > 0)) hd hP hdom
+  simp only [dtoaInts, pow10_eq _ hp]
+  constructor
+  · intro w hw
+    simp only [List.mem_append, List.mem_cons, List.not_mem_nil, or_false] at hw
+    rcases hw with (hw | hw) | hw
+    · subst hw; exact h1
+    · subst hw; exact h2
+    · split at hw
+      · rename_i h0
+        simp only [List.mem_cons, List.not_mem_nil, or_false] at hw
+        subst hw
+        rw [h0] at *
+        have hz : decide (0 > 0) = false := by decide
+        rw [hz, Nat.pow_zero, roundStage_zero _ _ hd]
+        exact roundK_zero_le _ _ hd hdom
+      · simp at hw
+  · intro f hf
+    simp only [List.mem_cons, List.not_mem_nil, or_false] at hf
+    have e9 : (10 : Nat) ^ 9 = 1000000000 := by decide
+    rcases hf with hf | hf | hf <;> subst hf <;> omega
+
+/-! ### fixed finding: the tie branch carries (0.995 @2 was printed as `0.1`) -/
+
+theorem C08_fixed_tie_carry :
+    dtoa 199 200 2 = some [49, 46, 48] ∧ dtoa 19 20 1 = some [49, 46, 48] ∧ dtoa 15999 2000 3 = some [56, 46, 48]
+    ∧ dtoa (-199) 200 2 = some [45, 49, 46, 48] := by decide +kernel
+
+/-! ### non-vacuity -/
+example : canonText 500 2 = [53, 46, 48] ∧ canonText 1225 2 = [49, 50, 46, 50, 53] ∧ canonText (-50) 2 = [45, 48, 46, 53]
+    ∧ canonText 5 0 = [53] := by decide +kernel
+example : (1225 : Int).natAbs ≤ 2147483647 * 10 ^ 2 ∧ dtoa 1225 (10 ^ 2) 2 = some [49, 50, 46, 50, 53] := by decide +kernel
+/-- rounding cases covered by (2): above a half, a tie to even, the `frac == 0` tie, a carry out of
+the fraction (`0.996 → 1.0`), a negative value rounding to zero -/
+example : dtoa 1 8 2 = some [48, 46, 49, 50] ∧ dtoa 3 8 2 = some [48, 46, 51, 56]
+    ∧ dtoa 1 20 1 = some [48, 46, 49]
+    ∧ dtoa 249 250 2 = some [49, 46, 48]
+    ∧ dtoa (-1) 1000 2 = some [45, 48, 46, 48] ∧ dtoa 5 2 0 = some [50] ∧ dtoa 7 2 0 = some [52] := by decide +kernel
+example : dtoa 2147483648 1 2 = none ∧ dtoa 2147483647 1 2 = some [50, 49, 52, 55, 52, 56, 51, 54, 52, 55, 46, 48] := by decide +kernel
+example : atof [32, 45, 49, 50, 46, 50, 53, 48, 69, 49, 120] = ⟨-122500, 3⟩ ∧ atof [49, 101, 45, 50] = ⟨1, 2⟩ := by decide
 
 end Fix8Model.Props.C08
